@@ -165,6 +165,30 @@ theorem mu_runLog (log : List Ev) (s s' : St) (h : runLog step s log = some s') 
           cases ok <;> simp at hmu <;> omega
         | _ => simp [isPost] at m3
 
+def nPosts (log : List Ev) : Nat := (log.filter isPost).length
+
+/-- `s.n` counts the `post` events -/
+theorem n_runLog (log : List Ev) (s s' : St) (h : runLog step s log = some s') : s'.n = s.n + nPosts log := by
+  induction log generalizing s with
+  | nil => simp at h; subst h; simp [nPosts]
+  | cons e es ih =>
+    simp only [runLog] at h
+    cases hs : step s e with
+    | none => simp [hs] at h
+    | some s1 =>
+      simp only [hs] at h
+      have := ih s1 h
+      have hn : s1.n = s.n + (if isPost e then 1 else 0) := by
+        cases e <;> simp only [step] at hs
+        all_goals (repeat' split at hs)
+        all_goals first | (simp at hs; done) | skip
+        all_goals (
+          simp only [Option.some.injEq] at hs
+          subst hs
+          simp [isPost, setOp])
+      simp only [nPosts, List.filter] at this ⊢
+      cases hp : isPost e <;> simp [hp] at hn ⊢ <;> omega
+
 theorem mu_init (b : Bool) : mu (init b) = 0 := rfl
 
 end PikaVerif.Mpi
